@@ -224,6 +224,10 @@ def make_form(rng):
         o = dict(st["out"], ell=True)
         form["eq"] = form["eq"].split("->")[0] + "->" + term_str(o)
         feats.add("K:outell0")
+    if kind == "inter" and 0.27 <= r < 0.32 and form["out"] is not None and Ellipsis not in form["out"] \
+            and not any(Ellipsis in sub for sub in form["subs"]):
+        form["out"].insert(rng.randint(0, len(form["out"])), Ellipsis)
+        feats.add("K:inter_outell0")
     if kind == "inter":
         feats.add("interleaved")
         if form["out"] is None:
@@ -426,6 +430,10 @@ def classify(form, feats, arrays, want):
     if form["kind"] == "str" and "->" in form["eq"] and "..." in form["eq"].split("->")[1] \
             and "..." not in form["eq"].split("->")[0] and ok(without_output_ellipsis(form), arrays):
         return "output-ellipsis-only"
+    if form["kind"] == "inter" and form["out"] is not None and Ellipsis in form["out"] \
+            and not any(Ellipsis in sub for sub in form["subs"]) \
+            and ok(dict(form, out=[x for x in form["out"] if x is not Ellipsis]), arrays):
+        return "interleaved-output-ellipsis-only"
     try:
         m = materialise_broadcast(form, arrays)
     except Exception:  # noqa
